@@ -74,7 +74,7 @@ theorem C02_frame (w : World) (o f : Nat) (a : Args) (m : Mock) (hm : w.mocks o 
     exfalso
     have := hacc (w.rep .fatal (.forbidden e a)) (by rw [heq]; simp)
     simp [rep, Ev.isReport] at this
-  | blocked e x r hfind hx hhi hord heq =>
+  | blocked e x r hfind hx hhi hord hrk0 heq =>
     exfalso
     have := hacc (w.rep .fatal r) (by rw [heq]; simp)
     simp [rep, Ev.isReport] at this
